@@ -88,7 +88,7 @@ class ExpandStream(Stream):
         n = 160 if tier == "quick" else 3000
         out = []
         B = _blocks()
-        names = sorted(b for b in B if b != "PolRot")     # PolRot already carries modes: expand_mode rejects it
+        names = sorted(b for b in B if b not in ("PolRot", "UserWaveguide"))   # these already carry modes: expand_mode rejects them
         while len(out) < n:
             nm = rng.choice([1, 2, 2, 3, 3, 4, 5])
             modes = rng.sample(MODE_POOL, nm)
